@@ -138,6 +138,24 @@ theorem C08_deepcopy_fresh (f : Nat) (H : Heaps) (t : Nat) (v v' : Val) (H' : He
     rw [hx] at e1; cases e1
     exact ⟨lookup_none_of_ge H x (by rw [e2]; exact e3), e2⟩
 
+/-- **Whatever the tag, nothing is shared.**  No object reachable from the copy is an object reachable from the
+    source — for a value of ANY of the five pointer tags (struct/tuple/closure, array, variant, string, channel
+    handle) at ANY nesting position: the copy walks every slot of every object (`Obj.kids`), there is no tag it
+    leaves in place.  (A channel handle is copied too; only the queue it names is shared, and a queue is not an
+    object of any heap.) -/
+theorem C08_deepcopy_shares_nothing (f : Nat) (H : Heaps) (t : Nat) (v v' : Val) (H' : Heaps)
+    (hc : deepCopy f H t v = some (v', H')) :
+    ∀ w a w' x, ReachV H v w → ptr? w = some a → ReachV H' v' w' → ptr? w' = some x → x ≠ a := by
+  obtain ⟨M, hv, iso, _, hcov, _⟩ := C08_deepcopy_iso f H t v v' H' hc
+  have hfresh := C08_deepcopy_fresh f H t v v' H' hc
+  intro w a w' x hw ha hw' hx heq
+  subst heq
+  obtain ⟨c, hm⟩ := hcov w hw
+  simp only [mapVal?, ha] at hm
+  obtain ⟨obj, _, _, d1, _, _, _, _⟩ := iso.done _ _ hm
+  rw [(hfresh w' x hw' hx).1] at d1
+  cases d1
+
 /-- the same for the captures of a spawn -/
 theorem C08_spawn_fresh (f : Nat) (H : Heaps) (t : Nat) (caps caps' : List Val) (H' : Heaps)
     (hc : spawnCopy f H t caps = some (caps', H')) :
